@@ -532,6 +532,7 @@ struct Agg {
     kinds: BTreeMap<String, u64>,
     outcomes: BTreeMap<String, u64>,
     probes: BTreeMap<String, u64>,
+    phases: BTreeMap<String, u64>,
     peak_max: u64,
     cpu_us: u64,
     dets: BTreeMap<u64, u64>,
@@ -623,6 +624,7 @@ pub fn run_batch_strided(prop: &str, tier: Tier, seed: u64, workers: usize, limi
                 for p in &r.probes {
                     *agg.probes.entry(p.clone()).or_default() += 1;
                 }
+                *agg.phases.entry(if r.phase.is_empty() { "-".to_string() } else { r.phase.clone() }).or_default() += 1;
                 agg.peak_max = agg.peak_max.max(r.peak);
                 agg.cpu_us += r.cpu_us;
                 agg.dets.insert(r.idx, r.det);
@@ -800,6 +802,7 @@ pub fn check_main(prop: &str, tier: Tier, seed: u64) -> i32 {
             "stored_faults": {"applied": agg.stored, "consumed": agg.consumed, "by_kind": agg.kinds},
             "outcomes": agg.outcomes,
             "rare_condition_probes": agg.probes,
+            "runs_by_phase": agg.phases,
             "worker_deaths": agg.deaths,
             "unconfirmed_slow": unconfirmed_slow,
             "max_peak_heap_bytes": agg.peak_max,
